@@ -30,12 +30,14 @@ FLOORS = {
               "counters": {"entry_compares": 4000, "asyncified_compares": 500,
                            "cls_Native": 100, "cls_Sandboxed": 100, "cls_Immutable": 100,
                            "async_filter_programs": 100, "local_autoescape_programs": 100,
-                           "quirky_object_compares": 100, "template_globals_history_steps": 300}},
+                           "quirky_object_compares": 100, "template_globals_history_steps": 300,
+                           "undefined_type_StrictUndefined": 40}},
     "thorough": {"evaluations": 80000, "distinct": 8000,
                  "counters": {"entry_compares": 80000, "asyncified_compares": 10000,
                               "cls_Native": 2000, "cls_Sandboxed": 2000, "cls_Immutable": 2000,
                               "async_filter_programs": 2000, "local_autoescape_programs": 2000,
-                              "quirky_object_compares": 100, "template_globals_history_steps": 6000}},
+                              "quirky_object_compares": 100, "template_globals_history_steps": 6000,
+                              "undefined_type_StrictUndefined": 800}},
 }
 
 
@@ -113,11 +115,17 @@ def same(a, b, native):
     return False
 
 
-def check_case(ctx, case, clsname):
+def check_case(ctx, case, clsname, undefined=None):
     cls = env_classes()[clsname]
     native = clsname == "Native"
-    senv = corpus.make_env(case, cls=cls)
-    aenv = corpus.make_env(case, cls=cls, enable_async=True)
+    kw = {}
+    if undefined is not None:
+        import jinja2
+
+        kw["undefined"] = getattr(jinja2, undefined)
+        ctx.count("undefined_type_" + undefined)
+    senv = corpus.make_env(case, cls=cls, **kw)
+    aenv = corpus.make_env(case, cls=cls, enable_async=True, **kw)
     name = case["main"]
     base = util.capture(lambda: senv.get_template(name).render(corpus.realize_data(case, senv)))
     ctx.count("cls_" + clsname)
@@ -296,6 +304,10 @@ def run(ctx):
         if clsname == "Native" and case["kind"] in ("incimp",):
             clsname = "Environment"   # native module/str concat of includes is C34 territory
         check_case(ctx, case, clsname)
+        if i % 4 == 1 and clsname != "Native":
+            # other undefined types (not DebugUndefined: it prints class names of the data objects):
+            # what raises in sync mode raises in async mode
+            check_case(ctx, case, clsname, undefined=["StrictUndefined", "ChainableUndefined"][(i // 4) % 2])
         if case["kind"] == "incimp":
             check_globals_history(ctx, case, clsname)
         if i < 2:
